@@ -331,6 +331,96 @@ def runFrom (fails : Nat → Option Failure) : Nat → List Step → Nat → Out
 
 def run (steps : List Step) (fails : Nat → Option Failure) : Outcome := runFrom fails 0 steps 0
 
+/-! ## The handlers as the ordered library calls of `Command.handle`
+
+The step lists above are coarse (one step per thing that can fail on its own).  Below each handler is written out
+call by call, in the order and in the spelling in which `harness/tables.py` reads the calls off the AST of
+`Command.handle` (local variables replaced by what they hold, `options.<name>` kept, anything else `_`).
+`Props/C20.lean` proves that these lists are the generated ones and that the step lists are these lists, grouped. -/
+
+/-- what a library call of a handler does to the outside world -/
+inductive CallRole
+  | read          -- opens an input file
+  | compute       -- library work on what was read; may raise
+  | failCheck     -- refuses the request (`raise CommandException`, or a method whose only effect is to do so)
+  | write         -- creates the output file
+  deriving DecidableEq, Repr
+
+/-- the tag `harness/tables.py` gives the role -/
+def CallRole.tag : CallRole → String
+  | .read => "read"
+  | .compute => "compute"
+  | .failCheck => "fail-check"
+  | .write => "write"
+
+/-- only a `write` call writes; the other three are validation in the sense of `StepKind` -/
+def CallRole.kind : CallRole → StepKind
+  | .write => .write
+  | _ => .validate
+
+structure HandlerCall where
+  /-- the step of the coarse list the call belongs to -/
+  step : String
+  role : CallRole
+  /-- the call as the translator spells it -/
+  call : String
+  deriving DecidableEq, Repr
+
+/-- the (kind, call) pair of the generated table -/
+def HandlerCall.entry (c : HandlerCall) : String × String := (c.role.tag, c.call)
+
+def HandlerCall.toStep (c : HandlerCall) : Step := ⟨c.step, c.role.kind⟩
+
+/-- `Command.handle` of `commands/clip.py` -/
+def clipCalls : List HandlerCall := [
+  ⟨"open-dataset", .read, "emsarray.open_dataset(options.input_path)"⟩,
+  ⟨"clip", .compute, "dataset.ems.clip(options.clip_geometry, work_dir=_)"⟩,
+  ⟨"save-output", .write, "clipped.ems.to_netcdf(options.output_path)"⟩]
+
+/-- `Command.handle` of `commands/extract_points.py` -/
+def extractPointsCalls : List HandlerCall := [
+  ⟨"open-dataset", .read, "emsarray.open_dataset(options.input_path)"⟩,
+  ⟨"read-csv", .read, "pandas.read_csv(options.points)"⟩,
+  ⟨"extract-dataframe", .compute,
+    "point_extraction.extract_dataframe(dataset, dataframe, options.coordinate_columns, point_dimension=options.point_dimension, missing_points=options.missing_points)"⟩,
+  ⟨"extract-dataframe", .failCheck, "raise CommandException on point_extraction.NonIntersectingPoints"⟩,
+  ⟨"time-coordinate", .compute, "dataset.ems.time_coordinate"⟩,
+  ⟨"save-output", .write, "to_netcdf_with_fixes(points, options.output_path, time_variable=time_coordinate)"⟩]
+
+/-- `Command.handle` of `commands/export_geometry.py` -/
+def exportGeometryCalls : List HandlerCall := [
+  ⟨"open-dataset", .read, "emsarray.open_dataset(options.input_path)"⟩,
+  ⟨"guess-format", .failCheck, "self.guess_format(options.output_path)"⟩,
+  ⟨"polygons", .compute, "dataset.ems.polygons"⟩,
+  ⟨"polygons", .compute, "dataset.ems.mask"⟩,
+  ⟨"lookup-writer", .compute, "format_writers[format]"⟩,
+  ⟨"lookup-writer", .failCheck, "raise CommandException on KeyError"⟩,
+  ⟨"write-geometry", .write, "writer(dataset, options.output_path)"⟩]
+
+/-- drop every element equal to its successor: consecutive calls of one step become that step -/
+def dedupAdjacent : List Step → List Step
+  | [] => []
+  | [a] => [a]
+  | a :: b :: rest => if a = b then dedupAdjacent (b :: rest) else a :: dedupAdjacent (b :: rest)
+
+/-- what runs before `handle`: argparse (`emsarray.cli.main` parses the arguments, then calls `options.func = Command.handle`) -/
+def argparseStep : Step := ⟨"parse-arguments", .validate⟩
+
+/-- the coarse step list of a handler, from its calls -/
+def stepsOfCalls (cs : List HandlerCall) : List Step :=
+  argparseStep :: dedupAdjacent (cs.map HandlerCall.toStep)
+
+/-- In a generated `(kind, call)` list: every kind is one of the four known ones, there is exactly one `write`, and
+nothing but a `write` comes after a `write`. -/
+def WritesLast (l : List (String × String)) : Prop :=
+  (∀ c ∈ l, c.1 ∈ ["read", "compute", "fail-check", "write"])
+  ∧ (l.filter (fun c => c.1 = "write")).length = 1
+  ∧ ∀ i, i < l.length → ∀ j, j < l.length →
+      (l[i]?.map (·.1)) = some "write" → (l[j]?.map (·.1)) ≠ some "write" → j < i
+
+instance (l : List (String × String)) : Decidable (WritesLast l) := by
+  unfold WritesLast; infer_instance
+
 /-! ## `float(str)`: correctly rounded decimal → binary64 -/
 
 /-- round-half-even of `p / q` (`q > 0`) -/
